@@ -188,8 +188,9 @@ class Gen:
                 src = rd.choice(planes)
                 k = rd.random()
                 planes.insert(rd.randint(0, len(planes)),
-                              B.Plane(src.normal.copy(), self.fl(rd), src.type) if k < 0.4 else         # same normal, own distance
-                              B.Plane(self.vec(rd), src.dist, src.type) if k < 0.7 else                 # same distance, own normal
+                              B.Plane(src.normal.copy(), self.fl(rd), src.type) if k < 0.3 else         # same normal, own distance
+                              B.Plane(self.vec(rd), src.dist, src.type) if k < 0.5 else                 # same distance, own normal
+                              B.Plane(src.normal.copy(), src.dist, B.PlaneType((src.type.value + 1) % 6)) if k < 0.75 else   # own type only
                               B.Plane(src.normal.copy(), src.dist, src.type))                           # equal in every attribute
         w['planes'] = planes
         r = self.rng('verts')
@@ -440,6 +441,11 @@ class Gen:
         vnum = 7 if ver.is_lightmap else ver.version
         props = []
         mdl_names = [self.name(r, 100) for _ in range(3)]
+        if 'near_duplicates' in F:
+            # model names that differ only in case / only in their last character: each is its own dictionary entry
+            rd = self.rng('near_dup_models')
+            src = rd.choice(mdl_names)
+            mdl_names += [src.swapcase() if src.swapcase() != src else src + 'X', src[:-1] + ('a' if src[-1] != 'a' else 'b')]
         for _ in range(self.n(r)):
             p = B.StaticProp(r.choice(mdl_names), self.vec(r), Angle(self.ang(r), self.ang(r), self.ang(r)))
             p.visleafs = set(r.sample(leafs, r.randint(0, min(3, len(leafs)))))
